@@ -29,7 +29,7 @@ const DIM: usize = 2;
 /// touches every lock of the engine in a fixed order (ids 90..93 are used and removed again)
 const NAMING_WARMUP: &[&str] = &[
     "ins:90:9", "q:90", "dm:90", "bq:90,91", "ea:90", "ex:90", "um:90:8", "knn:9", "stats", "ins:91:7", "flush", "q:90", "snap",
-    "ins:92:6", "del:90", "bd:91,92", "knn:1", "q:93",
+    "ins:92:6", "del:90", "bd:91,92", "knn:1", "q:93", "bl:94:4", "kb:1", "bdf:4",
 ];
 
 fn vec_of(x: u64) -> Vec<f32> {
@@ -157,6 +157,27 @@ pub fn apply(e: &TieredEngine, op: &str) -> String {
         }
         "bd" => match e.batch_delete(&ids(1)) {
             Ok(n) => n.to_string(),
+            Err(_) => "err".into(),
+        },
+        "bdf" => {
+            // batch delete by metadata filter {v = x}
+            let f = kyrodb_engine::proto::MetadataFilter {
+                filter_type: Some(kyrodb_engine::proto::metadata_filter::FilterType::Exact(kyrodb_engine::proto::ExactMatch {
+                    key: "v".into(),
+                    value: id(1).to_string(),
+                })),
+            };
+            match e.batch_delete_by_metadata_filter(&f) {
+                Ok(n) => n.to_string(),
+                Err(_) => "err".into(),
+            }
+        }
+        "bl" => match e.bulk_load_cold_tier(vec![(id(1), vec_of(id(2)), meta_of(id(2)))]) {
+            Ok((loaded, _, _, _)) => loaded.to_string(),
+            Err(_) => "err".into(),
+        },
+        "kb" => match e.knn_search_batch_with_ef(&[vec_of(id(1)), vec_of(id(1) + 1)], 2, None) {
+            Ok(r) => r.iter().map(|x| x.len().to_string()).collect::<Vec<_>>().join(","),
             Err(_) => "err".into(),
         },
         _ => "bad-op".into(),
